@@ -550,6 +550,33 @@ theorem roc_advances {W WC} (ci : Cipher W WC) (c : Ctx) (ssrc j0 : Nat) (payloa
   rw [e]
   simp [List.map_map, Function.comp_def, frameOf]
 
+/-- **sender_roc_after.**  … and after those `n + 1` packets the sender's roll-over counter — the
+value `contextToMikey` will announce to the next peer — is `⌊(j0 + n) / 2^16⌋`. -/
+theorem sender_roc_after {W WC} (ci : Cipher W WC) (c : Ctx) (ssrc j0 : Nat) (payload : Nat → Bytes) (n : Nat)
+    (h0 : Fits (c.state ssrc) j0) (hfw : (c.state ssrc).processed = true → (c.state ssrc).index ≤ j0)
+    (hb : j0 + (n + 1) < two48) :
+    ∃ c' fs, sendAll ci (some c) ssrc ((List.range (n + 1)).map fun k => (j0 + k, payload k)) = some (some c', fs) ∧
+      c'.roc ssrc = (j0 + n) / 65536 ∧
+      ∀ csb rand ts, ∀ e ∈ (contextToMikey c' csb rand ts).header.csIdMapInfo, e.ssrc = ssrc → e.roc = (j0 + n) / 65536 := by
+  have hf : FitsAll (c.state ssrc) (((List.range (n + 1)).map fun k => (j0 + k, payload k)).map (·.1)) := by
+    have := fitsAll_consecutive (c.state ssrc) j0 (n + 1) h0 hb
+    simpa [List.map_map, Function.comp_def] using this
+  obtain ⟨c', e, _, _, _, _, hst⟩ := sender_emits ci c ssrc _ hf
+  have hmap : (((List.range (n + 1)).map fun k => (j0 + k, payload k)).map (·.1)) = (List.range (n + 1)).map (j0 + ·) := by
+    simp [List.map_map, Function.comp_def]
+  rw [hmap, foldl_advance_consecutive _ j0 n hfw] at hst
+  have hroc : c'.roc ssrc = (j0 + n) / 65536 := by
+    rw [roc_eq_state, hst]
+    simp only [SsrcState.roc, two16, two32, two48] at hb ⊢
+    omega
+  refine ⟨c', _, e, hroc, ?_⟩
+  intro csb rand ts en hen hs
+  simp only [contextToMikey, List.mem_map] at hen
+  obtain ⟨s, _, rfl⟩ := hen
+  simp only at hs
+  subst hs
+  exact hroc
+
 /-- **receiver_tracks.**  A receiver with the sender's key and MKI delivers every packet of ANY
 arrival history (loss, reordering, duplicates) in which each arrival lies within 2^15 of the highest
 index it has processed (and the first one lies in the ROC epoch it was told): its ROC estimate
